@@ -36,6 +36,6 @@ CHECKS = {
               "one fault per run; after the first error returned by V2ReceivePacket the caller stops reading (as a real caller must disconnect)",
               "the v1-prefix downgrade path of RespondV2Handshake is not driven (not part of the statement as judged here)",
              ],
-             cpus=2, quick=dict(runs=450, budget=60), thorough=dict(budget=900), det_runs=30),
+             cpus=2, quick=dict(runs=1200, budget=90), thorough=dict(budget=900), det_runs=30),
  "C99": dict(engine="smoke", race=False, level="exploration", rule="smoke", assumptions=[], quick=dict(runs=100, budget=20), thorough=dict(budget=30)),
 }
